@@ -178,8 +178,9 @@ class Sweep:
                 dims=[tuple(keys)],
             )
 
-        if not any(k in self.items for k in keys):
+        if not any(k in self.items for k in keys) or (self.exclude is None and len(self) == 0):
             # Return an empty sweep with no dimensions if no items match the filter keys
+            # or if the sweep itself generates nothing
             return Sweep({})
 
         dims: list[str | tuple[str, ...]]
